@@ -72,6 +72,7 @@ type rig struct {
 	nullID     uint64
 	internalID uint64
 	start      time.Time
+	unnumbered int // fragments seen without FragIndex/FragCount (C10)
 }
 
 var loggerOnce bool
@@ -153,11 +154,15 @@ func newRig(rc rigConfig) *rig {
 // close tears the daemon down so that no goroutine of the bubble is left behind.
 func (r *rig) close() {
 	core.ShouldQuit = true
+	// one face at a time: every closing face cleans the (lock-free) RIB from its own send
+	// goroutine, and racing those clean-ups is the business of C16, not of this check
 	for _, f := range r.faces {
 		f.tr.Close()
+		synctest.Wait()
 	}
 	for _, f := range face.FaceTable.GetAll() {
 		f.Close()
+		synctest.Wait()
 	}
 	for _, th := range r.threads {
 		th.TellToQuit()
@@ -189,7 +194,11 @@ type rxPacket struct {
 // drain takes the frames recorded at face i and reassembles them (an independent
 // reassembler: fragments are grouped by Sequence-FragIndex and concatenated in index order).
 func (r *rig) drain(i int) ([]rxPacket, error) {
-	frames := r.faces[i].tr.VerifTakeFrames()
+	return reassemble(r.faces[i].tr.VerifTakeFrames(), i, &r.unnumbered)
+}
+
+// reassemble turns link-layer frames into network-layer packets.
+func reassemble(frames [][]byte, i int, unnumbered *int) ([]rxPacket, error) {
 	type partial struct {
 		parts    [][]byte
 		got      int
@@ -200,6 +209,8 @@ func (r *rig) drain(i int) ([]rxPacket, error) {
 	partials := map[uint64]*partial{}
 	var order []uint64
 	var out []rxPacket
+	var stream, streamTok []byte
+	var streamFrames, streamMax int
 	for _, fr := range frames {
 		p, _, err := spec.ReadPacket(enc.NewBufferReader(fr))
 		if err != nil {
@@ -217,6 +228,30 @@ func (r *rig) drain(i int) ([]rxPacket, error) {
 		}
 		if lp.FragCount != nil {
 			cnt = *lp.FragCount
+		}
+		if lp.Sequence != nil && lp.FragIndex == nil && lp.FragCount == nil && (len(stream) > 0 || !completeTLV(frag)) {
+			// Fragments that carry a sequence number but no FragIndex/FragCount (what the
+			// link service emits before the C10 repairs): frame sizes and fragment numbering
+			// are the business of C10; here consecutive fragments are simply joined until
+			// they form one complete TLV.
+			*unnumbered++
+			stream = append(stream, frag...)
+			streamFrames++
+			if len(fr) > streamMax {
+				streamMax = len(fr)
+			}
+			if len(lp.PitToken) > 0 {
+				streamTok = lp.PitToken
+			}
+			if completeTLV(stream) {
+				l3, _, err := spec.ReadPacket(enc.NewBufferReader(stream))
+				if err != nil {
+					return nil, fmt.Errorf("face %d: joined fragments are not a packet: %v", i, err)
+				}
+				out = append(out, rxPacket{wire: stream, pitToken: streamTok, pkt: l3, frames: streamFrames, maxFrame: streamMax})
+				stream, streamFrames, streamMax, streamTok = nil, 0, 0, nil
+			}
+			continue
 		}
 		if cnt == 1 && idx == 0 {
 			l3, _, err := spec.ReadPacket(enc.NewBufferReader(frag))
@@ -249,6 +284,9 @@ func (r *rig) drain(i int) ([]rxPacket, error) {
 			pa.token = lp.PitToken
 		}
 	}
+	if len(stream) > 0 {
+		return nil, fmt.Errorf("face %d emitted %d fragments that do not add up to a packet", i, streamFrames)
+	}
 	for _, base := range order {
 		pa := partials[base]
 		if pa.got != len(pa.parts) {
@@ -277,4 +315,41 @@ func sortedKeys[V any](m map[string]V) []string {
 	}
 	sort.Strings(ks)
 	return ks
+}
+
+// completeTLV reports whether b is exactly one TLV element.
+func completeTLV(b []byte) bool {
+	pos := 0
+	readNum := func() (uint64, bool) {
+		if pos >= len(b) {
+			return 0, false
+		}
+		x := b[pos]
+		pos++
+		n := 0
+		switch {
+		case x <= 0xfc:
+			return uint64(x), true
+		case x == 0xfd:
+			n = 2
+		case x == 0xfe:
+			n = 4
+		default:
+			n = 8
+		}
+		if pos+n > len(b) {
+			return 0, false
+		}
+		var v uint64
+		for _, y := range b[pos : pos+n] {
+			v = v<<8 | uint64(y)
+		}
+		pos += n
+		return v, true
+	}
+	if _, ok := readNum(); !ok {
+		return false
+	}
+	l, ok := readNum()
+	return ok && l == uint64(len(b)-pos)
 }
